@@ -49,3 +49,93 @@ Proofs/NodeInv.vos Proofs/NodeInv.vok Proofs/NodeInv.required_vos: Proofs/NodeIn
 Proofs/Sat.vo Proofs/Sat.glob Proofs/Sat.v.beautified Proofs/Sat.required_vo: Proofs/Sat.v Model/Api.vo Spec/Grammar.vo Spec/Eval.vo Spec/WF.vo Proofs/BytesFacts.vo Proofs/NodeInv.vo
 Proofs/Sat.vio: Proofs/Sat.v Model/Api.vio Spec/Grammar.vio Spec/Eval.vio Spec/WF.vio Proofs/BytesFacts.vio Proofs/NodeInv.vio
 Proofs/Sat.vos Proofs/Sat.vok Proofs/Sat.required_vos: Proofs/Sat.v Model/Api.vos Spec/Grammar.vos Spec/Eval.vos Spec/WF.vos Proofs/BytesFacts.vos Proofs/NodeInv.vos
+Proofs/WFSound.vo Proofs/WFSound.glob Proofs/WFSound.v.beautified Proofs/WFSound.required_vo: Proofs/WFSound.v Model/Api.vo Spec/WF.vo Proofs/BytesFacts.vo Proofs/NodeInv.vo
+Proofs/WFSound.vio: Proofs/WFSound.v Model/Api.vio Spec/WF.vio Proofs/BytesFacts.vio Proofs/NodeInv.vio
+Proofs/WFSound.vos Proofs/WFSound.vok Proofs/WFSound.required_vos: Proofs/WFSound.v Model/Api.vos Spec/WF.vos Proofs/BytesFacts.vos Proofs/NodeInv.vos
+WF/Words.vo WF/Words.glob WF/Words.v.beautified WF/Words.required_vo: WF/Words.v Spec/WF.vo Gen/Tables.vo
+WF/Words.vio: WF/Words.v Spec/WF.vio Gen/Tables.vio
+WF/Words.vos WF/Words.vok WF/Words.required_vos: WF/Words.v Spec/WF.vos Gen/Tables.vos
+WF/NoKeywordPrefix.vo WF/NoKeywordPrefix.glob WF/NoKeywordPrefix.v.beautified WF/NoKeywordPrefix.required_vo: WF/NoKeywordPrefix.v Spec/WF.vo Gen/Tables.vo
+WF/NoKeywordPrefix.vio: WF/NoKeywordPrefix.v Spec/WF.vio Gen/Tables.vio
+WF/NoKeywordPrefix.vos WF/NoKeywordPrefix.vok WF/NoKeywordPrefix.required_vos: WF/NoKeywordPrefix.v Spec/WF.vos Gen/Tables.vos
+WF/FoldUnique.vo WF/FoldUnique.glob WF/FoldUnique.v.beautified WF/FoldUnique.required_vo: WF/FoldUnique.v Spec/WF.vo Gen/Tables.vo
+WF/FoldUnique.vio: WF/FoldUnique.v Spec/WF.vio Gen/Tables.vio
+WF/FoldUnique.vos WF/FoldUnique.vok WF/FoldUnique.required_vos: WF/FoldUnique.v Spec/WF.vos Gen/Tables.vos
+Proofs/ApiFacts.vo Proofs/ApiFacts.glob Proofs/ApiFacts.v.beautified Proofs/ApiFacts.required_vo: Proofs/ApiFacts.v Model/Api.vo Spec/Lex.vo Spec/Grammar.vo Spec/Eval.vo Spec/WF.vo Proofs/BytesFacts.vo Proofs/ScanRef.vo Proofs/ParseGrammar.vo Proofs/NodeInv.vo Proofs/Sat.vo
+Proofs/ApiFacts.vio: Proofs/ApiFacts.v Model/Api.vio Spec/Lex.vio Spec/Grammar.vio Spec/Eval.vio Spec/WF.vio Proofs/BytesFacts.vio Proofs/ScanRef.vio Proofs/ParseGrammar.vio Proofs/NodeInv.vio Proofs/Sat.vio
+Proofs/ApiFacts.vos Proofs/ApiFacts.vok Proofs/ApiFacts.required_vos: Proofs/ApiFacts.v Model/Api.vos Spec/Lex.vos Spec/Grammar.vos Spec/Eval.vos Spec/WF.vos Proofs/BytesFacts.vos Proofs/ScanRef.vos Proofs/ParseGrammar.vos Proofs/NodeInv.vos Proofs/Sat.vos
+Proofs/Laws.vo Proofs/Laws.glob Proofs/Laws.v.beautified Proofs/Laws.required_vo: Proofs/Laws.v Model/Api.vo Spec/Grammar.vo Spec/Eval.vo Spec/WF.vo Proofs/BytesFacts.vo Proofs/NodeInv.vo Proofs/Sat.vo Proofs/ApiFacts.vo
+Proofs/Laws.vio: Proofs/Laws.v Model/Api.vio Spec/Grammar.vio Spec/Eval.vio Spec/WF.vio Proofs/BytesFacts.vio Proofs/NodeInv.vio Proofs/Sat.vio Proofs/ApiFacts.vio
+Proofs/Laws.vos Proofs/Laws.vok Proofs/Laws.required_vos: Proofs/Laws.v Model/Api.vos Spec/Grammar.vos Spec/Eval.vos Spec/WF.vos Proofs/BytesFacts.vos Proofs/NodeInv.vos Proofs/Sat.vos Proofs/ApiFacts.vos
+Spec/MatchSpec.vo Spec/MatchSpec.glob Spec/MatchSpec.v.beautified Spec/MatchSpec.required_vo: Spec/MatchSpec.v Model/Match.vo
+Spec/MatchSpec.vio: Spec/MatchSpec.v Model/Match.vio
+Spec/MatchSpec.vos Spec/MatchSpec.vok Spec/MatchSpec.required_vos: Spec/MatchSpec.v Model/Match.vos
+Proofs/MatchProof.vo Proofs/MatchProof.glob Proofs/MatchProof.v.beautified Proofs/MatchProof.required_vo: Proofs/MatchProof.v Model/Api.vo Spec/WF.vo Spec/MatchSpec.vo Proofs/BytesFacts.vo Proofs/NodeInv.vo
+Proofs/MatchProof.vio: Proofs/MatchProof.v Model/Api.vio Spec/WF.vio Spec/MatchSpec.vio Proofs/BytesFacts.vio Proofs/NodeInv.vio
+Proofs/MatchProof.vos Proofs/MatchProof.vok Proofs/MatchProof.required_vos: Proofs/MatchProof.v Model/Api.vos Spec/WF.vos Spec/MatchSpec.vos Proofs/BytesFacts.vos Proofs/NodeInv.vos
+Proofs/Offsets.vo Proofs/Offsets.glob Proofs/Offsets.v.beautified Proofs/Offsets.required_vo: Proofs/Offsets.v Model/Scan.vo Model/Parse.vo Spec/Lex.vo Proofs/BytesFacts.vo Proofs/ScanRef.vo
+Proofs/Offsets.vio: Proofs/Offsets.v Model/Scan.vio Model/Parse.vio Spec/Lex.vio Proofs/BytesFacts.vio Proofs/ScanRef.vio
+Proofs/Offsets.vos Proofs/Offsets.vok Proofs/Offsets.required_vos: Proofs/Offsets.v Model/Scan.vos Model/Parse.vos Spec/Lex.vos Proofs/BytesFacts.vos Proofs/ScanRef.vos
+WF/OrLaterBase.vo WF/OrLaterBase.glob WF/OrLaterBase.v.beautified WF/OrLaterBase.required_vo: WF/OrLaterBase.v Spec/MatchSpec.vo Gen/Tables.vo
+WF/OrLaterBase.vio: WF/OrLaterBase.v Spec/MatchSpec.vio Gen/Tables.vio
+WF/OrLaterBase.vos WF/OrLaterBase.vok WF/OrLaterBase.required_vos: WF/OrLaterBase.v Spec/MatchSpec.vos Gen/Tables.vos
+Props/Shipped.vo Props/Shipped.glob Props/Shipped.v.beautified Props/Shipped.required_vo: Props/Shipped.v Model/Api.vo Spec/WF.vo Spec/MatchSpec.vo Gen/Tables.vo Proofs/NodeInv.vo Proofs/WFSound.vo WF/Words.vo WF/NoKeywordPrefix.vo WF/FoldUnique.vo WF/OrLaterBase.vo
+Props/Shipped.vio: Props/Shipped.v Model/Api.vio Spec/WF.vio Spec/MatchSpec.vio Gen/Tables.vio Proofs/NodeInv.vio Proofs/WFSound.vio WF/Words.vio WF/NoKeywordPrefix.vio WF/FoldUnique.vio WF/OrLaterBase.vio
+Props/Shipped.vos Props/Shipped.vok Props/Shipped.required_vos: Props/Shipped.v Model/Api.vos Spec/WF.vos Spec/MatchSpec.vos Gen/Tables.vos Proofs/NodeInv.vos Proofs/WFSound.vos WF/Words.vos WF/NoKeywordPrefix.vos WF/FoldUnique.vos WF/OrLaterBase.vos
+Props/C01.vo Props/C01.glob Props/C01.v.beautified Props/C01.required_vo: Props/C01.v Props/Shipped.vo Spec/Grammar.vo Spec/Eval.vo Proofs/ParseGrammar.vo Proofs/Sat.vo Proofs/Laws.vo Proofs/ApiFacts.vo
+Props/C01.vio: Props/C01.v Props/Shipped.vio Spec/Grammar.vio Spec/Eval.vio Proofs/ParseGrammar.vio Proofs/Sat.vio Proofs/Laws.vio Proofs/ApiFacts.vio
+Props/C01.vos Props/C01.vok Props/C01.required_vos: Props/C01.v Props/Shipped.vos Spec/Grammar.vos Spec/Eval.vos Proofs/ParseGrammar.vos Proofs/Sat.vos Proofs/Laws.vos Proofs/ApiFacts.vos
+Props/C02.vo Props/C02.glob Props/C02.v.beautified Props/C02.required_vo: Props/C02.v Props/Shipped.vo Proofs/MatchProof.vo Proofs/Sat.vo Proofs/ApiFacts.vo
+Props/C02.vio: Props/C02.v Props/Shipped.vio Proofs/MatchProof.vio Proofs/Sat.vio Proofs/ApiFacts.vio
+Props/C02.vos Props/C02.vok Props/C02.required_vos: Props/C02.v Props/Shipped.vos Proofs/MatchProof.vos Proofs/Sat.vos Proofs/ApiFacts.vos
+Props/C03.vo Props/C03.glob Props/C03.v.beautified Props/C03.required_vo: Props/C03.v Props/Shipped.vo Proofs/ApiFacts.vo Proofs/ScanRef.vo Proofs/ParseGrammar.vo
+Props/C03.vio: Props/C03.v Props/Shipped.vio Proofs/ApiFacts.vio Proofs/ScanRef.vio Proofs/ParseGrammar.vio
+Props/C03.vos Props/C03.vok Props/C03.required_vos: Props/C03.v Props/Shipped.vos Proofs/ApiFacts.vos Proofs/ScanRef.vos Proofs/ParseGrammar.vos
+Props/C04.vo Props/C04.glob Props/C04.v.beautified Props/C04.required_vo: Props/C04.v Props/Shipped.vo Proofs/ApiFacts.vo Proofs/Laws.vo
+Props/C04.vio: Props/C04.v Props/Shipped.vio Proofs/ApiFacts.vio Proofs/Laws.vio
+Props/C04.vos Props/C04.vok Props/C04.required_vos: Props/C04.v Props/Shipped.vos Proofs/ApiFacts.vos Proofs/Laws.vos
+Props/C05.vo Props/C05.glob Props/C05.v.beautified Props/C05.required_vo: Props/C05.v Props/Shipped.vo Spec/Lex.vo Spec/Grammar.vo Proofs/ScanRef.vo Proofs/ParseGrammar.vo Proofs/ApiFacts.vo
+Props/C05.vio: Props/C05.v Props/Shipped.vio Spec/Lex.vio Spec/Grammar.vio Proofs/ScanRef.vio Proofs/ParseGrammar.vio Proofs/ApiFacts.vio
+Props/C05.vos Props/C05.vok Props/C05.required_vos: Props/C05.v Props/Shipped.vos Spec/Lex.vos Spec/Grammar.vos Proofs/ScanRef.vos Proofs/ParseGrammar.vos Proofs/ApiFacts.vos
+Props/C06.vo Props/C06.glob Props/C06.v.beautified Props/C06.required_vo: Props/C06.v Props/Shipped.vo Spec/Eval.vo Proofs/ApiFacts.vo Proofs/Laws.vo Proofs/MatchProof.vo Proofs/Sat.vo
+Props/C06.vio: Props/C06.v Props/Shipped.vio Spec/Eval.vio Proofs/ApiFacts.vio Proofs/Laws.vio Proofs/MatchProof.vio Proofs/Sat.vio
+Props/C06.vos Props/C06.vok Props/C06.required_vos: Props/C06.v Props/Shipped.vos Spec/Eval.vos Proofs/ApiFacts.vos Proofs/Laws.vos Proofs/MatchProof.vos Proofs/Sat.vos
+Props/C07.vo Props/C07.glob Props/C07.v.beautified Props/C07.required_vo: Props/C07.v Props/Shipped.vo Proofs/Laws.vo
+Props/C07.vio: Props/C07.v Props/Shipped.vio Proofs/Laws.vio
+Props/C07.vos Props/C07.vok Props/C07.required_vos: Props/C07.v Props/Shipped.vos Proofs/Laws.vos
+Props/C10.vo Props/C10.glob Props/C10.v.beautified Props/C10.required_vo: Props/C10.v Props/Shipped.vo Spec/Eval.vo Proofs/Laws.vo
+Props/C10.vio: Props/C10.v Props/Shipped.vio Spec/Eval.vio Proofs/Laws.vio
+Props/C10.vos Props/C10.vok Props/C10.required_vos: Props/C10.v Props/Shipped.vos Spec/Eval.vos Proofs/Laws.vos
+Props/C15.vo Props/C15.glob Props/C15.v.beautified Props/C15.required_vo: Props/C15.v Props/Shipped.vo Spec/Lex.vo Proofs/ScanRef.vo Proofs/Offsets.vo Proofs/ApiFacts.vo
+Props/C15.vio: Props/C15.v Props/Shipped.vio Spec/Lex.vio Proofs/ScanRef.vio Proofs/Offsets.vio Proofs/ApiFacts.vio
+Props/C15.vos Props/C15.vok Props/C15.required_vos: Props/C15.v Props/Shipped.vos Spec/Lex.vos Proofs/ScanRef.vos Proofs/Offsets.vos Proofs/ApiFacts.vos
+Model/GenFiles.vo Model/GenFiles.glob Model/GenFiles.v.beautified Model/GenFiles.required_vo: Model/GenFiles.v Model/Bytes.vo
+Model/GenFiles.vio: Model/GenFiles.v Model/Bytes.vio
+Model/GenFiles.vos Model/GenFiles.vok Model/GenFiles.required_vos: Model/GenFiles.v Model/Bytes.vos
+Spec/TablesSpec.vo Spec/TablesSpec.glob Spec/TablesSpec.v.beautified Spec/TablesSpec.required_vo: Spec/TablesSpec.v Model/GenFiles.vo Model/Api.vo Spec/WF.vo
+Spec/TablesSpec.vio: Spec/TablesSpec.v Model/GenFiles.vio Model/Api.vio Spec/WF.vio
+Spec/TablesSpec.vos Spec/TablesSpec.vok Spec/TablesSpec.required_vos: Spec/TablesSpec.v Model/GenFiles.vos Model/Api.vos Spec/WF.vos
+Gen/SpdxJson.vo Gen/SpdxJson.glob Gen/SpdxJson.v.beautified Gen/SpdxJson.required_vo: Gen/SpdxJson.v 
+Gen/SpdxJson.vio: Gen/SpdxJson.v 
+Gen/SpdxJson.vos Gen/SpdxJson.vok Gen/SpdxJson.required_vos: Gen/SpdxJson.v 
+Gen/Files.vo Gen/Files.glob Gen/Files.v.beautified Gen/Files.required_vo: Gen/Files.v 
+Gen/Files.vio: Gen/Files.v 
+Gen/Files.vos Gen/Files.vok Gen/Files.required_vos: Gen/Files.v 
+WF/JsonPartition.vo WF/JsonPartition.glob WF/JsonPartition.v.beautified WF/JsonPartition.required_vo: WF/JsonPartition.v Spec/TablesSpec.vo Gen/Tables.vo Gen/SpdxJson.vo
+WF/JsonPartition.vio: WF/JsonPartition.v Spec/TablesSpec.vio Gen/Tables.vio Gen/SpdxJson.vio
+WF/JsonPartition.vos WF/JsonPartition.vok WF/JsonPartition.required_vos: WF/JsonPartition.v Spec/TablesSpec.vos Gen/Tables.vos Gen/SpdxJson.vos
+WF/FilesRegenerate.vo WF/FilesRegenerate.glob WF/FilesRegenerate.v.beautified WF/FilesRegenerate.required_vo: WF/FilesRegenerate.v Spec/TablesSpec.vo Gen/SpdxJson.vo Gen/Files.vo
+WF/FilesRegenerate.vio: WF/FilesRegenerate.v Spec/TablesSpec.vio Gen/SpdxJson.vio Gen/Files.vio
+WF/FilesRegenerate.vos WF/FilesRegenerate.vok WF/FilesRegenerate.required_vos: WF/FilesRegenerate.v Spec/TablesSpec.vos Gen/SpdxJson.vos Gen/Files.vos
+WF/IdsParse.vo WF/IdsParse.glob WF/IdsParse.v.beautified WF/IdsParse.required_vo: WF/IdsParse.v Spec/TablesSpec.vo Gen/Tables.vo
+WF/IdsParse.vio: WF/IdsParse.v Spec/TablesSpec.vio Gen/Tables.vio
+WF/IdsParse.vos WF/IdsParse.vok WF/IdsParse.required_vos: WF/IdsParse.v Spec/TablesSpec.vos Gen/Tables.vos
+Proofs/ExcGuard.vo Proofs/ExcGuard.glob Proofs/ExcGuard.v.beautified Proofs/ExcGuard.required_vo: Proofs/ExcGuard.v Model/Parse.vo Spec/Grammar.vo
+Proofs/ExcGuard.vio: Proofs/ExcGuard.v Model/Parse.vio Spec/Grammar.vio
+Proofs/ExcGuard.vos Proofs/ExcGuard.vok Proofs/ExcGuard.required_vos: Proofs/ExcGuard.v Model/Parse.vos Spec/Grammar.vos
+Proofs/TablesSound.vo Proofs/TablesSound.glob Proofs/TablesSound.v.beautified Proofs/TablesSound.required_vo: Proofs/TablesSound.v Spec/TablesSpec.vo
+Proofs/TablesSound.vio: Proofs/TablesSound.v Spec/TablesSpec.vio
+Proofs/TablesSound.vos Proofs/TablesSound.vok Proofs/TablesSound.required_vos: Proofs/TablesSound.v Spec/TablesSpec.vos
+Props/C12.vo Props/C12.glob Props/C12.v.beautified Props/C12.required_vo: Props/C12.v Props/Shipped.vo Spec/TablesSpec.vo Spec/Grammar.vo Gen/SpdxJson.vo Gen/Files.vo WF/JsonPartition.vo WF/FilesRegenerate.vo WF/IdsParse.vo Proofs/ExcGuard.vo Proofs/ParseGrammar.vo Proofs/MatchProof.vo Proofs/TablesSound.vo
+Props/C12.vio: Props/C12.v Props/Shipped.vio Spec/TablesSpec.vio Spec/Grammar.vio Gen/SpdxJson.vio Gen/Files.vio WF/JsonPartition.vio WF/FilesRegenerate.vio WF/IdsParse.vio Proofs/ExcGuard.vio Proofs/ParseGrammar.vio Proofs/MatchProof.vio Proofs/TablesSound.vio
+Props/C12.vos Props/C12.vok Props/C12.required_vos: Props/C12.v Props/Shipped.vos Spec/TablesSpec.vos Spec/Grammar.vos Gen/SpdxJson.vos Gen/Files.vos WF/JsonPartition.vos WF/FilesRegenerate.vos WF/IdsParse.vos Proofs/ExcGuard.vos Proofs/ParseGrammar.vos Proofs/MatchProof.vos Proofs/TablesSound.vos
